@@ -142,15 +142,19 @@ def session_history(rnd, first_id, nev, focus=False):
                 args = zero_like["vals"][:npos]
                 if npos == 1 and args[0].get("k") in ("bytes", "str"):
                     continue     # T(b"...") means "parse these bytes": a single bytes argument is not a positional value
+                if npos > 1 and rnd.random() < (0.6 if focus else 0.3):
+                    # None in a positional slot = "unspecified" (finding F55: such a slot shared the class-wide default object)
+                    args = [codec.NONE_V if (i < npos - 1 and rnd.random() < 0.5) else a for i, a in enumerate(args)]
             else:
                 for i in rnd.sample(range(len(t["fields"])), rnd.randrange(1, len(t["fields"]) + 1)):
-                    kwargs.append([i + 1, zero_like["vals"][i]])
+                    kwargs.append([i + 1, codec.NONE_V if rnd.random() < 0.15 else zero_like["vals"][i]])
             if A.has_nan(args) or A.has_nan(kwargs):
                 continue
             try:
-                real_args = [A.unpint(a) if (f["bits"] and f["type"]["k"] != "enum") else A.unproject(a, f["type"], rf.type)
+                real_args = [None if a == codec.NONE_V else
+                             A.unpint(a) if (f["bits"] and f["type"]["k"] != "enum") else A.unproject(a, f["type"], rf.type)
                              for a, f, rf in zip(args, t["fields"], T.__fields__)]
-                real_kw = {T.__fields__[i - 1]._name: (A.unpint(v) if (t["fields"][i - 1]["bits"] and t["fields"][i - 1]["type"]["k"] != "enum")
+                real_kw = {T.__fields__[i - 1]._name: (None if v == codec.NONE_V else A.unpint(v) if (t["fields"][i - 1]["bits"] and t["fields"][i - 1]["type"]["k"] != "enum")
                                                        else A.unproject(v, t["fields"][i - 1]["type"], T.__fields__[i - 1].type)) for i, v in kwargs}
                 o = T(*real_args, **real_kw)
                 iid = next_iid
